@@ -28,7 +28,8 @@ import proofs
 from common import BUILD, COQ, VERIF
 from props import c19_session
 
-FILES = ["gen/Gen_tables_params.v", "Model_config.v", "Proofs_config.v", "Model_config_session.v", "Proofs_config_session.v"]
+FILES = ["gen/Gen_tables_params.v", "Model_config.v", "Proofs_config.v", "Model_pyconfig.v", "gen/Gen_io_config.v", "Inst_config.v",
+         "Model_config_session.v", "Proofs_config_session.v"]
 PROP = "Properties/C19.v"
 
 # findings of the current tree that this check knows how to recognise (one witness each).
@@ -311,10 +312,12 @@ class Impl:
             cname = self.canon(name, base)
 
         def tab(d, phase_keys):
+            if not isinstance(d, dict) or not all(isinstance(k, str) for k in d):
+                return ["d", [["<not-a-table>", ["unknown", type(d).__name__]]]]
             return ["d", sorted([[k, self.canon(x, base, names if k in phase_keys else ())] for k, x in d.items()],
                                 key=lambda kv: kv[0])]
-        res = ["ok", cname, tab(cfg["parameters"], ("phase_assemblage",)), tab(cfg["input"], ()),
-               tab(cfg["output"], ("raw_output", "diagnostics"))]
+        res = ["ok", cname, tab(cfg.get("parameters"), ("phase_assemblage",)), tab(cfg.get("input"), ()),
+               tab(cfg.get("output"), ("raw_output", "diagnostics"))]
         extra = sorted(set(cfg) - {"name", "parameters", "input", "output"})
         if extra:
             res.append(["extra-keys", extra])
@@ -977,7 +980,7 @@ def search(chk, impl, wd, cases, V, status):
 
 
 def run(chk):
-    ok, br = proofs.prove(chk, FILES, PROP, groups=(), gen_modules=("params",))
+    ok, br = proofs.prove(chk, FILES, PROP, groups=(), gen_modules=("params", "ioconfig"))
     chk.cov["trusted_base"] = [
         common.TRUSTED_COMMON[0],
         "table generator /verif/translator/specs_params.py (evaluates DefaultParams and every pydrex.mock preset: class-body AST, "
@@ -1020,15 +1023,6 @@ def run(chk):
         if "Model_config.v" in br.built_vo:
             bad += correspondence(chk, impl, wd, cases, V)
             chk.cov["traces_validated_against_impl"] = len(cases)
-        # call histories on live objects (Model_config_session): results edited between the calls
-        sbad, sessions = [], []
-        if "Model_config_session.v" in br.built_vo and not any(V.values()):
-            import time as _t
-            t1 = _t.time()
-            sbad, sessions = c19_session.correspondence(chk, impl, wd)
-            chk.cov["seconds_call_histories"] = round(_t.time() - t1, 1)
-            for h, msg in sbad:
-                bad.append(({"kind": "call-history:" + h.get("name", "?"), "toml": "", "expect": "session", "omitted": [], "detail": ""}, msg))
         chk.cov["disagreements"] = len(bad)
         regress = []
         for flag in FLAGS:
@@ -1038,11 +1032,28 @@ def run(chk):
                     regress.append(flag)
                 else:
                     chk.known_finding(f"{key} {text} [patch proposal: fixes/C19-config-errors.patch]")
+        found = []
+        if not ok or bad or regress:
+            # one-call search first: nothing has edited a returned object yet, so what it finds holds in a fresh process
+            found = search(chk, impl, wd, cases, V, status)
+        # call histories on live objects (Model_config_session): results edited between the calls
+        sbad, sessions = [], []
+        if "Model_config_session.v" in br.built_vo and not any(V.values()):
+            import time as _t
+            t1 = _t.time()
+            sbad, sessions = c19_session.correspondence(chk, impl, wd)
+            chk.cov["seconds_call_histories"] = round(_t.time() - t1, 1)
+            for h, msg in sbad:
+                bad.append(({"kind": "call-history:" + h.get("name", "?"), "toml": "", "expect": "session", "omitted": [], "detail": ""}, msg))
+        elif not found and "Model_config_session.v" not in br.built_vo:
+            # no compiled model (a proof / the table generator broke): histories go straight to the property oracle
+            found = c19_session.search_without_model(chk, wd)
+        chk.cov["disagreements"] = len(bad)
         if ok and not bad and not regress:
             return
-        found = search(chk, impl, wd, cases, V, status)
-        if sessions and len(found) < 3:
-            found += c19_session.search(chk, impl, wd, sbad, sessions)[:3 - len(found)]
+        if sessions and (sbad or not found):
+            found = c19_session.search(chk, impl, wd, sbad, sessions) + found
+            found = found[:4]
         for flag in regress:
             found.append({"kind": "property-violation", "call": "pydrex.io.parse_config",
                           "input": {"finding": FINDING[flag][0]}, "observed": [FINDING[flag][1] + " (recorded as fixed, reproduces again)"]})
